@@ -33,6 +33,9 @@ Fixpoint assoc {A} (k : string) (l : list (string * A)) : option A :=
   | (k', v) :: r => if String.eqb k k' then Some v else assoc k r
   end.
 
+Fixpoint nodupb (l : list string) : bool :=
+  match l with [] => true | x :: r => negb (mem x r) && nodupb r end.
+
 (* ------------------------------------------------------------------ text primitives *)
 Definition ch_nl : ascii := ascii_of_nat 10.
 Definition ch_cr : ascii := ascii_of_nat 13.
